@@ -34,9 +34,12 @@ class JsonDeserializer {
 
     err = parseVariant(variant, filter, nestingLimit);
 
-    if (!err && latch_.last() != 0 && variant.isFloat()) {
-      // We don't detect trailing characters earlier, so we need to check now
-      return DeserializationError::InvalidInput;
+    if (!err && variant.isFloat()) {
+      // We don't detect trailing characters earlier, so we need to check now:
+      // a number must be followed by the end of the input or by a whitespace
+      const int c = latch_.last();
+      if (c != 0 && c != ' ' && c != '\t' && c != '\r' && c != '\n')
+        return DeserializationError::InvalidInput;
     }
 
     return err;
